@@ -145,6 +145,52 @@ impl Ty {
     }
 }
 
+fn has_dict(t: &Ty) -> bool {
+    match t {
+        Ty::Dict(..) => true,
+        Ty::Struct(k) => k.iter().any(has_dict),
+        Ty::List(_, e) | Ty::Fsl(_, e) | Ty::Ree(_, e) => has_dict(e),
+        Ty::Map(k, v) => has_dict(k) || has_dict(v),
+        Ty::Union { kids, .. } => kids.iter().any(has_dict),
+        _ => false,
+    }
+}
+
+/// predicates over the schema that identify the known union findings (tags `u:*`):
+/// `u:desc` — a Union codec runs with `descending = true` (top level, or below struct /
+/// fixed-size list / dictionary of a descending field; list, map, run-end and union children
+/// are always encoded ascending); `u:dense-id-ge-n` — a dense union has a type id that is not
+/// smaller than its number of fields; `u:dict-child` — a union has a dictionary somewhere below it
+fn union_preds(t: &Ty, desc: bool, xt: &mut Vec<String>) {
+    let mut add = |s: &str| {
+        if !xt.iter().any(|x| x == s) {
+            xt.push(s.to_string())
+        }
+    };
+    match t {
+        Ty::Union { dense, ids, kids } => {
+            if desc {
+                add("u:desc");
+            }
+            if *dense && ids.iter().any(|x| *x as usize >= ids.len()) {
+                add("u:dense-id-ge-n");
+            }
+            if kids.iter().any(has_dict) {
+                add("u:dict-child");
+            }
+            kids.iter().for_each(|k| union_preds(k, false, xt));
+        }
+        Ty::Struct(ks) => ks.iter().for_each(|k| union_preds(k, desc, xt)),
+        Ty::Fsl(_, e) | Ty::Dict(_, e) => union_preds(e, desc, xt),
+        Ty::List(_, e) | Ty::Ree(_, e) => union_preds(e, false, xt),
+        Ty::Map(k, v) => {
+            union_preds(k, false, xt);
+            union_preds(v, false, xt)
+        }
+        _ => {}
+    }
+}
+
 fn contiguous(ids: &[i8]) -> bool {
     ids.iter().enumerate().all(|(i, x)| *x as usize == i)
 }
@@ -1968,6 +2014,9 @@ fn run_case(line: &str) -> (String, Vec<String>, String) {
     let n = case.n;
     let mut fails: Vec<String> = vec![];
     let mut xt: Vec<String> = vec![];
+    for f in &case.fields {
+        union_preds(&f.ty, f.desc, &mut xt);
+    }
     let conv = match catch(|| {
         let sf: Vec<SortField> = case.fields.iter().map(|f| SortField::new_with_options(dtype(&f.ty), f.opts())).collect();
         RowConverter::new(sf)
@@ -2448,7 +2497,10 @@ fn main() {
         let (a, fails, xt) = run_case(&line);
         let tags = if xt.is_empty() { tags } else { format!("{} {}", tags, xt) };
         for f in fails {
-            sink.oracle_failure(line.clone(), f, &tags);
+            // `this:<class>[-panic|-err]` identifies the failing check of this very violation
+            let class = f.split(':').next().unwrap_or("").to_string();
+            let kind = if f.ends_with("PANIC") { "-panic" } else if f.contains("ERR:") { "-err" } else { "" };
+            sink.oracle_failure(line.clone(), f, &format!("{} this:{}{}", tags, class, kind));
         }
         sink.case(line, a, &tags);
     };
